@@ -390,6 +390,17 @@ fn main()
 	for c in corpus { emit(&parse_hex_bytes(c), &mut out); }
 	// the two witnesses of the repaired listing defects (F19 header, F6 MOVS / SEV)
 	emit(&[0x01, 0x20, 0x40, 0xBF, 0x70, 0x47], &mut out);
+	// audit: inputs no generated case reaches — the empty file (header line only), a single byte, and a binary far longer
+	// than the 400-byte limit of the generators (600 NOPs, a BL back to the first instruction, BX LR: 1206 bytes)
+	emit(&[], &mut out);
+	emit(&[0x00], &mut out);
+	{
+		let mut long: Vec<u8> = Vec::new();
+		for _ in 0..600 { long.extend(enc(&Instruction::Nop)); }
+		long.extend(enc(&Instruction::Bl{off: -1204}));
+		long.extend(enc(&Instruction::Bx{off: reg(14)}));
+		emit(&long, &mut out);
+	}
 	let n = if thorough { 50_000 } else { 1_000 };
 	for _ in 0..n
 	{
